@@ -82,6 +82,18 @@ Definition enum_by_label (labels : list (ident * Z)) (l : ident) : option lval :
 
 Definition of_opt {A} (o : option A) : rres A := match o with Some a => ROk a | None => RErr end.
 
+(** an integer member of a union: val.Conv to an integer format accepts numbers and numeric strings;
+    a string that does not parse (or is out of range) is an error, so the next member is tried *)
+Definition conv_int (f : fmt) (v : rjv) : rres lval :=
+  match v with
+  | RNum (Some z) _ _ => if in_rangeb f z then ROk (LV (VInt f z)) else RBad
+  | RStr s => match atoi s with
+              | Some z => if in_rangeb f z then ROk (LV (VInt f z)) else RErr
+              | None => RErr
+              end
+  | _ => RBad
+  end.
+
 (** node.NewValue on one decoded scalar, by the leaf's (single) type *)
 Fixpoint rscalar (ty : ltype) (v : rjv) {struct ty} : rres lval :=
   match ty with
@@ -130,13 +142,10 @@ Fixpoint rscalar (ty : ltype) (v : rjv) {struct ty} : rres lval :=
          match ms with
          | [] => RErr
          | TInt f :: ms' =>
-             match v with
-             | RNum (Some z) _ _ => if in_rangeb f z then ROk (LV (VInt f z)) else RBad
-             | RStr s => match atoi s with
-                         | Some z => if in_rangeb f z then ROk (LV (VInt f z)) else first ms'
-                         | None => first ms'
-                         end
-             | _ => RBad
+             match conv_int f v with
+             | ROk x => ROk x
+             | RErr => first ms'
+             | RBad => RBad
              end
          | TStr :: _ => match v with RStr s => ROk (LV (VStr s)) | _ => RBad end
          | _ :: _ => RBad
@@ -159,7 +168,38 @@ Definition rvalue (ty : ltype) (is_list : bool) (v : rjv) : rres (option lval) :
       if is_list then
         match ty, v with
         | TEmpty, _ => ROk (Some LEmpty)                          (* FmtEmptyList: NotEmpty *)
-        | TUnion _, _ => RBad                                     (* toUnionList: not modelled *)
+        | TUnion members, RArr items =>
+            (* toUnionList: an empty array is nil; otherwise the first member whose list conversion takes every item *)
+            match items with
+            | [] => ROk None
+            | _ =>
+                (fix first (ms : list ltype) : rres (option lval) :=
+                   match ms with
+                   | [] => RErr
+                   | TInt f :: ms' =>
+                       match (fix all (l : list rjv) : rres (list lval) :=
+                                match l with
+                                | [] => ROk []
+                                | x :: tl => rbind (conv_int f x) (fun y => rbind (all tl) (fun ys => ROk (y :: ys)))
+                                end) items with
+                       | ROk xs => ROk (Some (LList xs))
+                       | RErr => first ms'
+                       | RBad => RBad
+                       end
+                   | TStr :: _ =>
+                       match (fix all (l : list rjv) : rres (list lval) :=
+                                match l with
+                                | [] => ROk []
+                                | RStr x :: tl => rbind (all tl) (fun ys => ROk (LV (VStr x) :: ys))
+                                | _ :: _ => RBad
+                                end) items with
+                       | ROk xs => ROk (Some (LList xs))
+                       | r => match r with ROk _ => RBad | RErr => RErr | RBad => RBad end
+                       end
+                   | _ :: _ => RBad
+                   end) members
+            end
+        | TUnion _, _ => RBad
         | TBin, RArr items => rbind (rscalars TStr items) (fun xs => ROk (Some (LList xs)))
                                                                   (* FmtBinaryList: toStringList, a val.StringList *)
         | _, RArr items => rbind (rscalars ty items) (fun xs => ROk (Some (LList xs)))
